@@ -48,16 +48,24 @@ type optInfo struct {
 	Section  string
 	Path     string
 	LongFull string
+	EnvFull  string
 }
 
-// optInfos lists all options of a declaration with their computed names.
+func appendNS(ns []string, n string) []string {
+	if n == "" {
+		return ns
+	}
+	return append(append([]string{}, ns...), n)
+}
+
+// optInfos lists all options of a declaration with their computed names: the
+// long name with the namespaces of every enclosing group, command and the
+// parser; the env key with the env-namespaces likewise.
 func optInfos(d *DeclSpec) []optInfo {
 	var out []optInfo
-	var rec func(g *GroupSpec, cp []string, own bool, ns []string, gpath string)
-	rec = func(g *GroupSpec, cp []string, own bool, ns []string, gpath string) {
-		if g.Namespace != "" {
-			ns = append(append([]string{}, ns...), g.Namespace)
-		}
+	var rec func(g *GroupSpec, cp []string, own bool, ns, ens []string, gpath string)
+	rec = func(g *GroupSpec, cp []string, own bool, ns, ens []string, gpath string) {
+		ns, ens = appendNS(ns, g.Namespace), appendNS(ens, g.EnvNamespace)
 		for _, o := range g.Opts {
 			oi := optInfo{optRef: optRef{o, g, cp}, Own: own}
 			oi.Section = sectionOf(oi.optRef, own)
@@ -65,36 +73,41 @@ func optInfos(d *DeclSpec) []optInfo {
 			if o.Long != "" {
 				oi.LongFull = strings.Join(append(append([]string{}, ns...), o.Long), nsDelim(d))
 			}
+			if o.Env != "" {
+				oi.EnvFull = strings.Join(append(append([]string{}, ens...), o.Env), envNSDelim(d))
+			}
 			out = append(out, oi)
 		}
 		for _, s := range g.Sub {
-			rec(s, cp, false, ns, gpath+"/"+s.Name)
+			rec(s, cp, false, ns, ens, gpath+"/"+s.Name)
 		}
 	}
+	ns0, ens0 := appendNS(nil, d.Namespace), appendNS(nil, d.EnvNamespace)
 	if d.Root != nil {
-		rec(d.Root, nil, false, nil, d.Root.Name)
+		rec(d.Root, nil, false, ns0, ens0, d.Root.Name)
 	}
 	for _, g := range d.Groups {
-		rec(g, nil, false, nil, g.Name)
+		rec(g, nil, false, ns0, ens0, g.Name)
 	}
-	var recC func(cs []*CmdSpec, path []string)
-	recC = func(cs []*CmdSpec, path []string) {
+	var recC func(cs []*CmdSpec, path []string, ns, ens []string)
+	recC = func(cs []*CmdSpec, path []string, ns, ens []string) {
 		for _, c := range cs {
 			p := append(append([]string{}, path...), c.Name)
+			cns, cens := appendNS(ns, c.Namespace), appendNS(ens, c.EnvNamespace)
 			if c.Own != nil {
 				if c.Exec {
-					rec(c.Own, p, false, nil, c.Own.Name)
+					rec(c.Own, p, false, cns, cens, c.Own.Name)
 				} else {
-					rec(c.Own, p, true, nil, "")
+					rec(c.Own, p, true, cns, cens, "")
 				}
 			}
 			for _, g := range c.Groups {
-				rec(g, p, false, nil, g.Name)
+				rec(g, p, false, cns, cens, g.Name)
 			}
-			recC(c.Commands, p)
+			recC(c.Commands, p, cns, cens)
 		}
 	}
-	recC(d.Commands, nil)
+	recC(d.Commands, nil, ns0, ens0)
 	return out
 }
 
